@@ -266,6 +266,13 @@ def gen_op(rng, t, cfg, ids_seen):
     if cfg.get("toggles"):
         w.append(("tg", int(100 * cfg["toggles"])))
     kind = rng.choices([k for k, _ in w], [x for _, x in w])[0]
+    # bursts: several undos (redos) in a row, so that new edits are made with >= 2 undone steps pending
+    if cfg.get("_burst"):
+        kind, cfg["_burst"] = cfg["_burst"][0], cfg["_burst"][1:]
+    elif kind == "u" and rng.random() < 0.45:
+        cfg["_burst"] = ["u"] * rng.randint(1, 3)
+    elif kind == "r" and rng.random() < 0.3:
+        cfg["_burst"] = ["r"] * rng.randint(1, 2)
     if kind == "tg":
         return gen_toggle(rng, t, cfg)
     if kind == "ae":
@@ -300,6 +307,16 @@ def gen_op(rng, t, cfg, ids_seen):
         tids = sorted({t.get_track_id(x) for x in ns})
         r = rng.random()
         tid = rng.choice(tids) if tids and r < 0.6 else (t.get_next_track_id() if r < 0.8 else rng.choice([50, 51, 60]))
+        # branch-directed choices: splice into a skip edge of a track / add below a division
+        skips = [(a, b) for a, b in g.edges if t.get_time(b) - t.get_time(a) >= 2 and t.get_track_id(a) == t.get_track_id(b)]
+        divs = [a for a in ns if g.out_degree(a) == 2 and t.get_time(a) < T - 1]
+        r3 = rng.random()
+        if skips and r3 < 0.3:
+            a, b = rng.choice(skips)
+            tm, tid = rng.randrange(t.get_time(a) + 1, t.get_time(b)), t.get_track_id(a)
+        elif divs and r3 < 0.45:
+            a = rng.choice(divs)
+            tm, tid = rng.randrange(t.get_time(a) + 1, T), t.get_track_id(a)
         f = rng.random() < 0.4
         attrs = {"time": tm, "track_id": tid}
         toks = ["0=z%d" % tm, "2=z%d" % tid]
@@ -319,7 +336,10 @@ def gen_op(rng, t, cfg, ids_seen):
                     px = (tm, b)
         elif rng.random() < 0.9:
             if cfg["per_axis"]:
-                for ax in (["z"] if cfg["ndim"] == 4 else []) + ["y", "x"]:
+                axes = (["z"] if cfg["ndim"] == 4 else []) + ["y", "x"]
+                if rng.random() < 0.25:  # only some of the coordinates: must be refused before any sub-edit
+                    axes = rng.sample(axes, rng.randint(1, len(axes) - 1))
+                for ax in axes:
                     attrs[ax] = float(nid)
                     toks.append("%d=t%d" % (KEY[ax], nid))
             else:
@@ -536,6 +556,7 @@ def run_scenario(seed, idx, nsteps=None, seg_p=0.5, on_step=None, toggles=0.0):
                 break
     finally:
         signal.signal(signal.SIGALRM, old)
+    cfg.pop("_burst", None)
     return {"lines": lines, "obs": obs, "kinds": kinds, "cfg": cfg, "seed": seed, "index": idx, "tracks": t}
 
 
